@@ -450,3 +450,536 @@ theorem roots_remove_count (id : Nat) : (rs : List Tree) → (idsRoots rs).count
       omega
 
 end Pg.Sym
+
+namespace Pg.Sym
+
+/-! ### clones: ids are fresh *and* distinct -/
+
+theorem clone_node_ids (cfg : Cfg) (deep : Bool) (next : Nat) (par : Option Nat) (p : List Key) (m : Meta) (its : Items) :
+    ((Tree.node m its).clone cfg deep next par p).1.ids =
+      next :: idsItems (cloneItems cfg deep (next + 1) next p its).1 := by
+  unfold Tree.clone
+  simp only
+  rw [sealIf_ids]
+  cases hk : m.kind with
+  | list => simp [Tree.ids, setPathItems_ids, renumber, renumberFrom_ids, filterMissing_ids]
+  | dict => simp [Tree.ids]
+  | obj c => simp [Tree.ids, adoptItems_ids]
+
+theorem clone_node_snd (cfg : Cfg) (deep : Bool) (next : Nat) (par : Option Nat) (p : List Key) (m : Meta) (its : Items) :
+    ((Tree.node m its).clone cfg deep next par p).2 = (cloneItems cfg deep (next + 1) next p its).2 := by
+  unfold Tree.clone; rfl
+
+mutual
+  theorem clone_count (cfg : Cfg) (deep : Bool) (next : Nat) (par : Option Nat) (p : List Key) :
+      (t : Tree) → next ≤ (t.clone cfg deep next par p).2 ∧
+        ∀ i, (t.clone cfg deep next par p).1.ids.count i ≤ 1 ∧
+          (i < next → (t.clone cfg deep next par p).1.ids.count i = 0) ∧
+          ((t.clone cfg deep next par p).2 ≤ i → (t.clone cfg deep next par p).1.ids.count i = 0)
+    | .leaf a => by
+      cases a <;> cases deep <;> simp [Tree.clone, Tree.ids]
+    | .node m its => by
+      have ih := cloneItems_count cfg deep (next + 1) next p its
+      rw [clone_node_snd]
+      refine ⟨by omega, ?_⟩
+      intro i
+      rw [clone_node_ids]
+      have hi := ih.2 i
+      simp only [List.count_cons]
+      by_cases he : next = i
+      · subst he
+        have := hi.2.1 (by omega)
+        simp only [beq_self_eq_true, if_true]
+        refine ⟨by omega, by omega, by omega⟩
+      · have hb : (next == i) = false := by simpa using he
+        simp only [hb, Bool.false_eq_true, if_false, Nat.add_zero]
+        refine ⟨hi.1, ?_, hi.2.2⟩
+        intro hlt; exact hi.2.1 (by omega)
+  theorem cloneItems_count (cfg : Cfg) (deep : Bool) (next : Nat) (h : Nat) (p : List Key) :
+      (its : Items) → next ≤ (cloneItems cfg deep next h p its).2 ∧
+        ∀ i, (idsItems (cloneItems cfg deep next h p its).1).count i ≤ 1 ∧
+          (i < next → (idsItems (cloneItems cfg deep next h p its).1).count i = 0) ∧
+          ((cloneItems cfg deep next h p its).2 ≤ i → (idsItems (cloneItems cfg deep next h p its).1).count i = 0)
+    | [] => by simp [cloneItems, idsItems]
+    | (k, c) :: r => by
+      have h1 := clone_count cfg deep next (some h) (p ++ [k]) c
+      have h2 := cloneItems_count cfg deep (c.clone cfg deep next (some h) (p ++ [k])).2 h p r
+      unfold cloneItems
+      simp only [idsItems, List.count_append]
+      refine ⟨by omega, ?_⟩
+      intro i
+      have a := h1.2 i
+      have b := h2.2 i
+      refine ⟨?_, ?_, ?_⟩
+      · by_cases hlt : i < (c.clone cfg deep next (some h) (p ++ [k])).2
+        · have := b.2.1 hlt; omega
+        · have := a.2.2 (by omega); omega
+      · intro hlt
+        have := a.2.1 hlt
+        have := b.2.1 (by omega)
+        omega
+      · intro hge
+        have := a.2.2 (by omega)
+        have := b.2.2 hge
+        omega
+end
+
+end Pg.Sym
+
+namespace Pg.Sym
+
+/-! ### what `evalVE` does to the forest: roots only leave, flags only rise -/
+
+structure EvalMono (f f' : Forest) : Prop where
+  roots : f'.roots.Sublist f.roots
+  aliased : f.aliased = true → f'.aliased = true
+  consumed : f.consumed = true → f'.consumed = true
+  next : f.nextId ≤ f'.nextId
+
+theorem EvalMono.refl (f : Forest) : EvalMono f f := ⟨List.Sublist.refl _, id, id, Nat.le_refl _⟩
+
+theorem EvalMono.trans {a b c : Forest} (h1 : EvalMono a b) (h2 : EvalMono b c) : EvalMono a c :=
+  ⟨h2.roots.trans h1.roots, fun h => h2.aliased (h1.aliased h), fun h => h2.consumed (h1.consumed h),
+   Nat.le_trans h1.next h2.next⟩
+
+theorem relocateRef_mono (cfg : Cfg) (f : Forest) (pending par : Option Nat) (hobj : Bool) (p : List Key) (rid : Nat) :
+    EvalMono f (relocateRef cfg f pending par hobj p rid).1 := by
+  unfold relocateRef
+  split
+  · split
+    · exact ⟨List.Sublist.refl _, id, id, (clone_count _ _ _ _ _ _).1⟩
+    · exact EvalMono.refl f
+  · exact EvalMono.refl f
+  · split
+    · exact ⟨List.Sublist.refl _, id, fun _ => rfl, Nat.le_refl _⟩
+    · split
+      · split
+        · exact ⟨List.filter_sublist, id, id, Nat.le_refl _⟩
+        · exact ⟨List.Sublist.refl _, fun _ => rfl, id, Nat.le_refl _⟩
+      · exact ⟨List.Sublist.refl _, id, id, (clone_count _ _ _ _ _ _).1⟩
+
+mutual
+  theorem evalVE_mono (cfg : Cfg) (pending : Option Nat) : (ve : VE) → ∀ (f : Forest) (par : Option Nat)
+      (hobj hpart : Bool) (p : List Key), EvalMono f (evalVE cfg f pending par hobj hpart p ve).1
+    | .atom a, f, _, _, _, _ => by simp only [evalVE]; exact EvalMono.refl f
+    | .fresh, f, _, _, _, _ => by
+      simp only [evalVE]; exact ⟨List.Sublist.refl _, id, id, Nat.le_succ _⟩
+    | .freshTuple n, f, _, _, _, _ => by
+      simp only [evalVE]; exact ⟨List.Sublist.refl _, id, id, Nat.le_add_right _ _⟩
+    | .mkRef tgt, f, _, _, _, _ => by
+      simp only [evalVE]; exact ⟨List.Sublist.refl _, id, id, Nat.le_add_right _ _⟩
+    | .ref id, f, par, hobj, _, p => by
+      simp only [evalVE]; exact relocateRef_mono cfg f pending par hobj p id
+    | .typedList items, f, _, _, _, p => by
+      simp only [evalVE]
+      have h0 : EvalMono f { f with nextId := f.nextId + 1 } := ⟨List.Sublist.refl _, id, id, Nat.le_succ _⟩
+      exact h0.trans (evalItems_mono cfg pending items _ _ _ _ _ _)
+    | .node kind sl aw pt items, f, _, _, _, p => by
+      simp only [evalVE]
+      have h0 : EvalMono f { f with nextId := f.nextId + 1 } := ⟨List.Sublist.refl _, id, id, Nat.le_succ _⟩
+      exact h0.trans (evalItems_mono cfg pending items _ _ _ _ _ _)
+  theorem evalItems_mono (cfg : Cfg) (pending : Option Nat) : (items : List (Key × VE)) → ∀ (f : Forest) (h : Nat)
+      (hobj hpart : Bool) (p : List Key) (pos : Option Nat),
+      EvalMono f (evalItems cfg f pending h hobj hpart p pos items).1
+    | [], f, _, _, _, _, _ => by simp only [evalItems]; exact EvalMono.refl f
+    | (k0, v) :: r, f, h, hobj, hpart, p, pos => by
+      simp only [evalItems]
+      exact (evalVE_mono cfg pending v f _ _ _ _).trans (evalItems_mono cfg pending r _ _ _ _ _ _)
+end
+
+/-! ### `find?` is stable when roots leave a forest without duplicate ids -/
+
+theorem roots_find_sublist (t : Nat) {rs' rs : List Tree} (h : rs'.Sublist rs) :
+    (idsRoots rs).count t ≤ 1 → ∀ s, rs'.findSome? (Tree.find? t) = some s → rs.findSome? (Tree.find? t) = some s := by
+  induction h with
+  | slnil => intro _ s hs; exact hs
+  | cons r _ ih =>
+    intro hc s hs
+    rw [idsRoots_cons, List.count_append] at hc
+    simp only [List.findSome?_cons]
+    cases hr : r.find? t with
+    | none => exact ih (by omega) s hs
+    | some s' =>
+      -- `t` occurs in the dropped root, so it cannot occur in the kept ones
+      exfalso
+      have h1 := count_pos_of_mem (find?_some t r _ hr).2
+      have h2 := ih (by omega) s hs
+      have h3 := count_pos_of_mem (by
+        have := roots_find_ids_le t _ s h2 t
+        have hs' := (find?_some_root t _ s h2)
+        exact hs')
+      omega
+  | cons_cons r _ ih =>
+    intro hc s hs
+    rw [idsRoots_cons, List.count_append] at hc
+    simp only [List.findSome?_cons] at hs ⊢
+    cases hr : r.find? t with
+    | none => rw [hr] at hs; exact ih (by omega) s hs
+    | some s' => rw [hr] at hs; exact hs
+where
+  find?_some_root (t : Nat) : (rs : List Tree) → ∀ s, rs.findSome? (Tree.find? t) = some s → t ∈ idsRoots rs
+    | [], s, h => by simp at h
+    | r :: rs, s, h => by
+      simp only [List.findSome?_cons] at h
+      rw [idsRoots_cons]
+      split at h
+      · next s' hs' => exact List.mem_append_left _ (find?_some t r _ hs').2
+      · exact List.mem_append_right _ (find?_some_root t rs s h)
+
+theorem idsRoots_sublist {rs' rs : List Tree} (h : rs'.Sublist rs) (i : Nat) :
+    (idsRoots rs').count i ≤ (idsRoots rs).count i := by
+  induction h with
+  | slnil => exact Nat.le_refl _
+  | cons r _ ih => rw [idsRoots_cons, List.count_append]; omega
+  | cons_cons r _ ih => simp only [idsRoots_cons, List.count_append]; omega
+
+end Pg.Sym
+
+namespace Pg.Sym
+
+/-! ### the invariant "ids are distinct and below the counter" and the accounting of `evalVE` -/
+
+structure NB (f : Forest) : Prop where
+  nodup : ∀ i, f.ids.count i ≤ 1
+  bound : ∀ i, f.nextId ≤ i → f.ids.count i = 0
+
+theorem NB.of_mono {f f' : Forest} (h : NB f) (hm : EvalMono f f') : NB f' := by
+  constructor
+  · intro i
+    have := idsRoots_sublist hm.roots i
+    have := h.nodup i
+    simp only [Forest.ids_eq] at *; omega
+  · intro i hi
+    have := idsRoots_sublist hm.roots i
+    have := h.bound i (Nat.le_trans hm.next hi)
+    simp only [Forest.ids_eq] at *; omega
+
+/-- what may be counted twice for a moment: the ids of the value that is being replaced, once it
+has been moved into the new value and before the new value is stored over it. -/
+def allow (f f' : Forest) (P : List Nat) (i : Nat) : Nat :=
+  if f'.consumed && !f.consumed then P.count i else 0
+
+structure EvalIds (f f' : Forest) (t P : List Nat) : Prop where
+  old : ∀ i, i < f.nextId → f'.ids.count i + t.count i ≤ f.ids.count i + allow f f' P i
+  fresh : ∀ i, f.nextId ≤ i → f'.ids.count i + t.count i ≤ 1
+  bound : ∀ i, f'.nextId ≤ i → f'.ids.count i + t.count i = 0
+
+structure PendOk (f : Forest) (pending : Option Nat) (P : List Nat) : Prop where
+  found : ∀ oid s, pending = some oid → f.find? oid = some s → s.ids = P
+  pbound : ∀ i, f.nextId ≤ i → P.count i = 0
+
+theorem PendOk.of_mono {f f' : Forest} {pending : Option Nat} {P : List Nat} (h : PendOk f pending P)
+    (hn : NB f) (hm : EvalMono f f') : PendOk f' pending P := by
+  constructor
+  · intro oid s hp hs
+    exact h.found oid s hp (roots_find_sublist oid hm.roots (hn.nodup oid) s hs)
+  · intro i hi
+    exact h.pbound i (Nat.le_trans hm.next hi)
+
+theorem ids_with_next (f : Forest) (n : Nat) : ({ f with nextId := n } : Forest).ids = f.ids := rfl
+
+theorem relocateRef_ids (cfg : Cfg) (f : Forest) (pending par : Option Nat) (hobj : Bool) (p : List Key) (rid : Nat)
+    (P : List Nat) (hn : NB f) (hp : PendOk f pending P)
+    (hal : (relocateRef cfg f pending par hobj p rid).1.aliased = false) :
+    EvalIds f (relocateRef cfg f pending par hobj p rid).1 (relocateRef cfg f pending par hobj p rid).2.ids P := by
+  unfold relocateRef at hal ⊢
+  have cloneCase : ∀ (t : Tree),
+      EvalIds f { f with nextId := (t.clone cfg false f.nextId par p).2 } (t.clone cfg false f.nextId par p).1.ids P := by
+    intro t
+    have hc := clone_count cfg false f.nextId par p t
+    constructor
+    · intro i hi
+      have := (hc.2 i).2.1 hi
+      simp only [ids_with_next]; omega
+    · intro i hi
+      have := (hc.2 i).1
+      have := hn.bound i hi
+      simp only [ids_with_next]; omega
+    · intro i hi
+      have := (hc.2 i).2.2 hi
+      have := hn.bound i (Nat.le_trans hc.1 hi)
+      simp only [ids_with_next]; omega
+  have trivCase : EvalIds f f [] P := by
+    constructor
+    · intro i _; simp
+    · intro i hi; have := hn.bound i hi; simp; omega
+    · intro i hi; have := hn.bound i hi; simp; omega
+  split
+  · split
+    · exact cloneCase _
+    · simpa [Tree.ids] using trivCase
+  · simpa [Tree.ids] using trivCase
+  · next m its hfind =>
+    have hle := Forest.find?_ids_le f rid _ hfind
+    split
+    · next hcond =>
+      simp only [Bool.and_eq_true, beq_iff_eq, Bool.not_eq_true'] at hcond
+      have hP : (Tree.node m its).ids = P := hp.found rid _ hcond.1 hfind
+      have hids : (Tree.setParent par (Tree.setPath p (Tree.setPath [] (Tree.setParent none (Tree.node m its))))).ids = P := by
+        rw [setParent_ids, setPath_ids, setPath_ids, setParent_ids, hP]
+      rw [hids]
+      constructor
+      · intro i _
+        simp only [allow, hcond.2, Bool.not_false, Bool.and_true, if_true]
+        exact Nat.le_refl _
+      · intro i hi
+        have := hn.bound i hi
+        have := hle i
+        rw [hP] at this
+        show f.ids.count i + P.count i ≤ 1
+        omega
+      · intro i hi
+        have := hn.bound i hi
+        have := hle i
+        rw [hP] at this
+        show f.ids.count i + P.count i = 0
+        omega
+    · next hnp =>
+      split
+      · next hreuse =>
+        have hids : (Tree.setParent par (Tree.setPath p (Tree.node m its))).ids = (Tree.node m its).ids := by
+          rw [setParent_ids, setPath_ids]
+        split
+        · next hroot =>
+          simp only
+          rw [hids]
+          have heq := roots_remove_count rid f.roots (hn.nodup rid) m its hfind hroot
+          constructor
+          · intro i _
+            have := heq i
+            show (idsRoots (f.roots.filter _)).count i + _ ≤ _
+            simp only [Forest.ids_eq] at *; omega
+          · intro i hi
+            have := heq i
+            have := hn.bound i hi
+            show (idsRoots (f.roots.filter _)).count i + _ ≤ _
+            simp only [Forest.ids_eq] at *; omega
+          · intro i hi
+            have := heq i
+            have := hn.bound i hi
+            show (idsRoots (f.roots.filter _)).count i + _ = 0
+            simp only [Forest.ids_eq] at *; omega
+        · next hnroot =>
+          simp only [hfind, hnp, hreuse, hnroot, if_true, if_false, Bool.false_eq_true] at hal
+          cases hal
+      · exact cloneCase _
+
+end Pg.Sym
+
+namespace Pg.Sym
+
+theorem getKey_eraseKey_ne {k k2 : Key} (h : k2 ≠ k) : (its : Items) → getKey (eraseKey k its) k2 = getKey its k2
+  | [] => rfl
+  | (k', c) :: r => by
+    unfold eraseKey
+    by_cases hk : k' = k
+    · simp only [hk, if_true, getKey_cons]
+      have : ¬ k = k2 := fun e => h e.symm
+      simp [this]
+    · simp only [hk, if_false, getKey_cons, getKey_eraseKey_ne h r]
+
+theorem getD_leaf_ids (its : Items) (k : Key) : ((getKey its k).getD (.leaf .none)).ids = slotIds its k := by
+  unfold slotIds
+  cases getKey its k <;> simp [Tree.ids]
+
+theorem fields_count (i : Nat) : (ks : List Key) → ks.Nodup → ∀ its : Items,
+    (idsItems (ks.map (fun k => (k, (getKey its k).getD (.leaf .none))))).count i ≤ (idsItems its).count i
+  | [], _, its => by simp [idsItems]
+  | k :: ks, hnd, its => by
+    rw [List.nodup_cons] at hnd
+    simp only [List.map_cons, idsItems, List.count_append, getD_leaf_ids]
+    have hcongr : ks.map (fun k2 => (k2, (getKey its k2).getD (.leaf .none))) =
+        ks.map (fun k2 => (k2, (getKey (eraseKey k its) k2).getD (.leaf .none))) := by
+      apply List.map_congr_left
+      intro k2 hk2
+      have hne : k2 ≠ k := fun e => hnd.1 (e ▸ hk2)
+      rw [getKey_eraseKey_ne hne]
+    rw [hcongr]
+    have ih := fields_count i ks hnd.2 (eraseKey k its)
+    have := eraseKey_count k i its
+    omega
+
+theorem clsFields_nodup (cls : Nat) : (clsFields cls).Nodup := by
+  unfold clsFields
+  split <;> decide
+
+theorem normObj_count (cls : Nat) (its : Items) (i : Nat) :
+    (idsItems (normObjItems cls its)).count i ≤ (idsItems its).count i :=
+  fields_count i _ (clsFields_nodup cls) its
+
+theorem wrapNode (f f2 : Forest) (pending : Option Nat) (inner outer P : List Nat) (hn : NB f) (hp : PendOk f pending P)
+    (ih : EvalIds { f with nextId := f.nextId + 1 } f2 inner P) (hnext : f.nextId + 1 ≤ f2.nextId)
+    (hle : ∀ i, outer.count i ≤ inner.count i) : EvalIds f f2 (f.nextId :: outer) P := by
+  have hallow : ∀ i, allow { f with nextId := f.nextId + 1 } f2 P i = allow f f2 P i := fun _ => rfl
+  refine ⟨?_, ?_, ?_⟩
+  · intro i hi
+    have h1 := ih.old i (by simp; omega)
+    have h2 := hle i
+    have hne : ¬ f.nextId = i := by omega
+    rw [hallow] at h1
+    simp only [ids_with_next] at h1
+    simp only [List.count_cons, hne, beq_iff_eq, if_false]
+    omega
+  · intro i hi
+    have h2 := hle i
+    by_cases he : f.nextId = i
+    · subst he
+      have h1 := ih.old f.nextId (by simp)
+      have hb := hn.bound f.nextId (Nat.le_refl _)
+      have hpb := hp.pbound f.nextId (Nat.le_refl _)
+      have hal : allow { f with nextId := f.nextId + 1 } f2 P f.nextId = 0 := by
+        unfold allow; split <;> simp [hpb]
+      rw [hal] at h1
+      simp only [ids_with_next] at h1
+      simp only [List.count_cons, beq_self_eq_true, if_true]
+      omega
+    · have h1 := ih.fresh i (by simp; omega)
+      simp only [List.count_cons, he, beq_iff_eq, if_false]
+      omega
+  · intro i hi
+    have h1 := ih.bound i hi
+    have h2 := hle i
+    have hne : ¬ f.nextId = i := by omega
+    simp only [List.count_cons, hne, beq_iff_eq, if_false]
+    omega
+
+theorem combineIds (f fa fb : Forest) (pending : Option Nat) (ta tb P : List Nat) (hn : NB f) (hp : PendOk f pending P)
+    (hma : EvalMono f fa) (hmb : EvalMono fa fb) (a : EvalIds f fa ta P) (b : EvalIds fa fb tb P) :
+    EvalIds f fb (ta ++ tb) P := by
+  refine ⟨?_, ?_, ?_⟩
+  · intro i hi
+    have h1 := a.old i hi
+    have h2 := b.old i (Nat.lt_of_lt_of_le hi hma.next)
+    have hsum : allow f fa P i + allow fa fb P i ≤ allow f fb P i := by
+      unfold allow
+      have c1 := hma.consumed
+      have c2 := hmb.consumed
+      cases hf : f.consumed <;> cases ha : fa.consumed <;> cases hb : fb.consumed <;> simp_all
+    simp only [List.count_append]
+    omega
+  · intro i hi
+    simp only [List.count_append]
+    by_cases hlt : i < fa.nextId
+    · have h2 := b.old i hlt
+      have h1 := a.fresh i hi
+      have hpb := hp.pbound i hi
+      have hal : allow fa fb P i = 0 := by unfold allow; split <;> simp [hpb]
+      omega
+    · have h2 := b.fresh i (by omega)
+      have h1 := a.bound i (by omega)
+      omega
+  · intro i hi
+    simp only [List.count_append]
+    have h2 := b.bound i hi
+    have h1 := a.bound i (Nat.le_trans hmb.next hi)
+    omega
+
+mutual
+  theorem evalVE_ids (cfg : Cfg) (pending : Option Nat) (P : List Nat) : (ve : VE) → ∀ (f : Forest)
+      (par : Option Nat) (hobj hpart : Bool) (p : List Key), NB f → PendOk f pending P →
+      (evalVE cfg f pending par hobj hpart p ve).1.aliased = false →
+      EvalIds f (evalVE cfg f pending par hobj hpart p ve).1 (evalVE cfg f pending par hobj hpart p ve).2.ids P
+    | .atom a, f, _, _, _, _, hn, _, _ => by
+      simp only [evalVE, Tree.ids]
+      exact ⟨fun i _ => by simp, fun i hi => by have := hn.bound i hi; simp; omega,
+             fun i hi => by have := hn.bound i hi; simp; omega⟩
+    | .fresh, f, _, _, _, _, hn, _, _ => by
+      simp only [evalVE, Tree.ids]
+      exact ⟨fun i _ => by simp [ids_with_next], fun i hi => by have := hn.bound i hi; simp [ids_with_next]; omega,
+             fun i hi => by have := hn.bound i (by simp at hi; omega); simp [ids_with_next]; omega⟩
+    | .freshTuple n, f, _, _, _, _, hn, _, _ => by
+      simp only [evalVE, Tree.ids]
+      exact ⟨fun i _ => by simp [ids_with_next], fun i hi => by have := hn.bound i hi; simp [ids_with_next]; omega,
+             fun i hi => by have := hn.bound i (by simp at hi; omega); simp [ids_with_next]; omega⟩
+    | .mkRef tgt, f, _, _, _, _, hn, _, _ => by
+      simp only [evalVE, Tree.ids, idsItems]
+      refine ⟨?_, ?_, ?_⟩
+      · intro i hi
+        have : ¬ f.nextId = i := by omega
+        simp [ids_with_next, List.count_cons, this]
+      · intro i hi
+        have := hn.bound i hi
+        simp only [ids_with_next, List.count_cons, List.count_nil]
+        split <;> omega
+      · intro i hi
+        simp only at hi
+        have := hn.bound i (by omega)
+        have hne : ¬ f.nextId = i := by omega
+        simp [ids_with_next, List.count_cons, hne]; omega
+    | .ref id, f, par, hobj, _, p, hn, hp, hal => by
+      simp only [evalVE] at hal ⊢
+      exact relocateRef_ids cfg f pending par hobj p id P hn hp hal
+    | .typedList items, f, par, _, _, p, hn, hp, hal => by
+      simp only [evalVE] at hal ⊢
+      have hn1 : NB { f with nextId := f.nextId + 1 } :=
+        ⟨hn.nodup, fun i hi => hn.bound i (by simp at hi; omega)⟩
+      have hp1 : PendOk { f with nextId := f.nextId + 1 } pending P :=
+        ⟨hp.found, fun i hi => hp.pbound i (by simp at hi; omega)⟩
+      have ih := evalItems_ids cfg pending P items { f with nextId := f.nextId + 1 } f.nextId false false p (some 0) hn1 hp1 hal
+      have hnx := (evalItems_mono cfg pending items { f with nextId := f.nextId + 1 } f.nextId false false p (some 0)).next
+      simp only [Tree.ids]
+      exact wrapNode f _ pending _ _ P hn hp ih hnx (fun _ => Nat.le_refl _)
+    | .node kind sl aw pt items, f, par, hobj, hpart, p, hn, hp, hal => by
+      have hn1 : NB { f with nextId := f.nextId + 1 } :=
+        ⟨hn.nodup, fun i hi => hn.bound i (by simp at hi; omega)⟩
+      have hp1 : PendOk { f with nextId := f.nextId + 1 } pending P :=
+        ⟨hp.found, fun i hi => hp.pbound i (by simp at hi; omega)⟩
+      cases kind with
+      | dict =>
+        simp only [evalVE] at hal ⊢
+        have ih := evalItems_ids cfg pending P items _ _ _ _ _ _ hn1 hp1 hal
+        have hnx := (evalItems_mono cfg pending items { f with nextId := f.nextId + 1 } f.nextId false
+          (if (par.isSome && !sl && aw && !pt && !false) = true then hpart else pt) p none).next
+        rw [sealIf_ids]
+        simp only [Tree.ids]
+        exact wrapNode f _ pending _ _ P hn hp ih hnx (fun _ => Nat.le_refl _)
+      | list =>
+        simp only [evalVE] at hal ⊢
+        have ih := evalItems_ids cfg pending P items _ _ _ _ _ _ hn1 hp1 hal
+        have hnx := (evalItems_mono cfg pending items { f with nextId := f.nextId + 1 } f.nextId false
+          (if (par.isSome && !sl && aw && !pt && !false) = true then hpart else pt) p (some 0)).next
+        rw [sealIf_ids]
+        simp only [Tree.ids]
+        exact wrapNode f _ pending _ _ P hn hp ih hnx (fun _ => Nat.le_refl _)
+      | obj cls =>
+        simp only [evalVE] at hal ⊢
+        have ih := evalItems_ids cfg pending P items _ _ _ _ _ _ hn1 hp1 hal
+        have hnx := (evalItems_mono cfg pending items { f with nextId := f.nextId + 1 } f.nextId true
+          (if (par.isSome && !sl && aw && !pt && !true) = true then hpart else pt) p none).next
+        rw [sealIf_ids]
+        simp only [Tree.ids]
+        refine wrapNode f _ pending _ _ P hn hp ih hnx ?_
+        intro i
+        have := normObj_count cls ((evalItems cfg { f with nextId := f.nextId + 1 } pending f.nextId true
+          (if (par.isSome && !sl && aw && !pt && !true) = true then hpart else pt) p none items).2.map
+          (fun kv => (kv.1, adoptPartial true (if (par.isSome && !sl && aw && !pt && !true) = true then hpart else pt) kv.2))) i
+        rw [adoptItems_ids] at this
+        exact this
+  theorem evalItems_ids (cfg : Cfg) (pending : Option Nat) (P : List Nat) : (items : List (Key × VE)) → ∀ (f : Forest)
+      (h : Nat) (hobj hpart : Bool) (p : List Key) (pos : Option Nat), NB f → PendOk f pending P →
+      (evalItems cfg f pending h hobj hpart p pos items).1.aliased = false →
+      EvalIds f (evalItems cfg f pending h hobj hpart p pos items).1
+        (idsItems (evalItems cfg f pending h hobj hpart p pos items).2) P
+    | [], f, _, _, _, _, _, hn, _, _ => by
+      simp only [evalItems, idsItems]
+      exact ⟨fun i _ => by simp, fun i hi => by have := hn.bound i hi; simp; omega,
+             fun i hi => by have := hn.bound i hi; simp; omega⟩
+    | (k0, v) :: r, f, h, hobj, hpart, p, pos, hn, hp, hal => by
+      simp only [evalItems] at hal ⊢
+      have hma := evalVE_mono cfg pending v f (some h) hobj hpart
+        (p ++ [match pos with | some n => Key.i n | none => k0])
+      have hmb := evalItems_mono cfg pending r
+        (evalVE cfg f pending (some h) hobj hpart (p ++ [match pos with | some n => Key.i n | none => k0]) v).1
+        h hobj hpart p (pos.map (· + 1))
+      have hala : (evalVE cfg f pending (some h) hobj hpart (p ++ [match pos with | some n => Key.i n | none => k0]) v).1.aliased = false := by
+        cases hx : (evalVE cfg f pending (some h) hobj hpart (p ++ [match pos with | some n => Key.i n | none => k0]) v).1.aliased with
+        | false => rfl
+        | true => exact Bool.noConfusion (hal.symm.trans (hmb.aliased hx))
+      have a := evalVE_ids cfg pending P v f (some h) hobj hpart _ hn hp hala
+      have hna := hn.of_mono hma
+      have hpa := hp.of_mono hn hma
+      have b := evalItems_ids cfg pending P r _ h hobj hpart p (pos.map (· + 1)) hna hpa hal
+      exact combineIds f _ _ pending _ _ P hn hp hma hmb a b
+end
+
+end Pg.Sym
